@@ -3,6 +3,7 @@
 From Coq Require Import NArith ZArith List Bool FMapPositive.
 From Mpc Require Import Gen.Consts Base.Label Circuit.Circuit Circuit.Garble Circuit.GarbleProof Lang.Gc Lang.GcProof Lang.Hashtab Lang.HashtabProof Proto.Stream Proto.StreamProof Proto.StreamGcProof Proto.StreamSimProof.
 Import ListNotations.
+From Mpc Require Gen.State Base.StateExpected Base.StateCheck Base.StatePkgs.
 Local Open Scope nat_scope.
 
 (* For every streamed gate whose wire indices fit 32 bits, whose rows are
@@ -245,3 +246,16 @@ Theorem C05_stream_gate_labels :
     = Some (pick c (gate_fn o va vb), id') /\ wire_ok r c.
 Proof. exact stream_gate_labels. Qed.
 Print Assumptions C05_stream_gate_labels.
+
+(* STATE INVENTORY (finite obligation on the model regenerated from the source, checked by
+   computation).  The struct fields and package-level variables of the Go packages this
+   property is anchored in — circuit, compiler, compiler/ssa — as emitted from /repo's current
+   source by harness/gen_state.go (Gen/State.v) are exactly those the models above were written
+   against (Base/StateExpected.v).  A new field or variable (a cache, a memo, a pool, a counter,
+   a changed field type) is state the models do not have: this obligation then breaks and the
+   property is no longer shown to hold until the change has been reviewed against the model. *)
+Theorem C05_state_inventory :
+  Mpc.Base.StateCheck.state_unchanged Mpc.Gen.State.state_inventory Mpc.Base.StateExpected.expected_state
+    Mpc.Base.StatePkgs.pkgs_C05 = true.
+Proof. vm_compute. reflexivity. Qed.
+Print Assumptions C05_state_inventory.
